@@ -260,3 +260,43 @@ func compositeFieldValue(v ssa.Value, field string) ssa.Value {
 	}
 	return nil
 }
+
+// fencingQuorumFn finds the coordinator function that fans NewTerm out to the nodes:
+// the function of coordinator/controllers that starts goroutines whose body
+// (statically) reaches the NewTerm RPC and that returns the map of responders.
+func fencingQuorumFn(h *H, rule string) *ssa.Function {
+	var out []*ssa.Function
+	for _, fn := range h.P.Funcs {
+		if fn.Parent() != nil || ir.RelPkg(ir.PkgPathOf(fn)) != "coordinator/controllers" {
+			continue
+		}
+		res := fn.Signature.Results()
+		if res.Len() != 2 {
+			continue
+		}
+		if _, isMap := res.At(0).Type().Underlying().(*types.Map); !isMap {
+			continue
+		}
+		spawns := false
+		for _, a := range fn.AnonFuncs {
+			if ok, _ := h.P.StaticReaches(a, h.P.MatchPred(ir.Callee{Pkg: "coordinator/rpc", Recv: "Provider", Name: "NewTerm"})); ok {
+				spawns = true
+			}
+		}
+		hasGo := false
+		ir.Instrs(fn, func(in ssa.Instruction) {
+			if _, ok := in.(*ssa.Go); ok {
+				hasGo = true
+			}
+		})
+		if spawns && hasGo {
+			out = append(out, fn)
+		}
+	}
+	if len(out) != 1 {
+		h.Anchor(rule, fmt.Sprintf("the coordinator function fanning NewTerm out to the fencing quorum (found %d)", len(out)))
+		return nil
+	}
+	h.Fn(ir.FuncName(out[0]))
+	return out[0]
+}
